@@ -79,14 +79,15 @@ static void hp_gc(void* gc_data, hazard_node_t* node) {
   (void)gc_data;
   hnode_t* n = (hnode_t*)node;
   gh_reclaim(n->id);
-  free(n);
+  if ((char*)n - (char*)0 && vs_heap_contains(n)) free(n);
 }
 static hnode_t* hp_new(int pad) {
-  if (pad) {
-    void* junk = malloc((size_t)pad * 16);  // shapes the address pattern seen by the sorted snapshot
+  if (pad & 127) {
+    void* junk = malloc((size_t)(pad & 127) * 16);  // shapes the address pattern seen by the sorted snapshot
     (void)junk;
   }
-  hnode_t* n = malloc(sizeof *n);
+  // pad >= 128: take the node from the far arena region (more than 2^31 bytes away), as with brk heap vs mmap arenas
+  hnode_t* n = (pad & 128) ? vs_alloc_far(sizeof *n) : malloc(sizeof *n);
   n->id = gh_new_id();
   n->payload = n->id * 7;
   n->hazard.gc_data = 0;
